@@ -80,7 +80,7 @@ func (l *lgen) concavePolygon() geom.Polygon {
 				rings = append(rings, geom.NewLineString(seqOf([]geom.XY{{X: x0, Y: 1}, {X: x0, Y: ht - 1}, {X: x0 + wv, Y: ht - 1}, {X: x0 + wv, Y: 1}, {X: x0, Y: 1}})))
 			}
 			p := geom.NewPolygon(rings)
-			if p.Validate() == nil {
+			if genValid(p) {
 				return p
 			}
 			continue
@@ -101,7 +101,7 @@ func (l *lgen) concavePolygon() geom.Polygon {
 		}
 		pts = append(pts, pts[0])
 		p := geom.NewPolygon([]geom.LineString{geom.NewLineString(seqOf(pts))})
-		if p.Validate() == nil {
+		if genValid(p) {
 			return p
 		}
 	}
@@ -130,7 +130,7 @@ func (l *lgen) starLines() geom.MultiLineString {
 					pts = append(pts, l.pt())
 				}
 				cand := geom.NewLineString(seqOf(pts))
-				if cand.Validate() == nil {
+				if genValid(cand) {
 					ls = append(ls, cand)
 					break
 				}
